@@ -334,7 +334,7 @@ class ProgressBar(object):
 
                 if self._format_line_count:
                     self._io.write("\033[{}A".format(self._format_line_count))
-        elif self._step > 0:
+        elif self._write_count > 0:
             # move to new line
             self._io.write_line("")
 
